@@ -450,7 +450,29 @@ func (sh *Shared) buildIntrinsics() {
 		return nil
 	}
 	m["(*sync.Once).Do"] = func(fr *frame, args []value) value {
+		// the "done" state lives in the Once value itself (field done.v), so that copying or
+		// re-assigning the struct (`once = sync.Once{}` to allow another attempt) behaves as in Go
 		p := fr.ptr(args[0])
+		if st, ok := (*p).(structure); ok {
+			// sync.Once{_ noCopy; done atomic.Uint32; m Mutex}: the first field holding a uint32 is `done`
+			for _, f := range st {
+				d, ok := f.(structure)
+				if !ok || len(d) == 0 {
+					continue
+				}
+				last := len(d) - 1
+				v, ok := d[last].(uint32)
+				if !ok {
+					continue
+				}
+				if v != 0 {
+					return nil
+				}
+				d[last] = uint32(1)
+				call(fr.i, fr, token.NoPos, args[1], nil)
+				return nil
+			}
+		}
 		if fr.i.onces[p] {
 			return nil
 		}
